@@ -144,6 +144,20 @@ class HookedContext(decimal.Context):
         return decimal.Context.copy(self)
 
 
+class HookedList(list):
+    """placed by the harness in DATA it hands in (the "fields" list of a shared parsed reader schema): every step of an
+    iteration over it is an instrumented point"""
+    def __iter__(self):
+        it = list.__iter__(self)
+        while True:
+            SCHED.point("fields")
+            try:
+                x = next(it)
+            except StopIteration:
+                return
+            yield x
+
+
 def install():
     """fresh instrumented context (prec 28, no flags); False when the module has no module-level context"""
     import fastavro._logical_readers_py as LR
@@ -175,7 +189,10 @@ def setup_slots(setup):
         if c["api"] == "new_dict":
             slots[c["$out"]] = {}
         else:
-            run_ops([c], slots)
+            hook = c.get("$hook_fields")
+            run_ops([{k: v for k, v in c.items() if k != "$hook_fields"}], slots)
+            if hook and isinstance(slots.get(c["$out"]), dict) and "fields" in slots[c["$out"]]:
+                slots[c["$out"]]["fields"] = HookedList(slots[c["$out"]]["fields"])
     return slots
 
 
@@ -202,6 +219,9 @@ def mode_count(job):
     has_ctx = install()
     seq, counts = [], []
     for ops in job["threads"]:
+        if job.get("fresh_setup"):
+            slots = setup_slots(job["setup"])        # every thread's points are counted at FIRST use of the shared objects
+            install()
         pts = []
         SCHED.counting = pts
         seq.append(run_ops(ops, slots))
@@ -244,6 +264,8 @@ def mode_forced(job):
     slots = setup_slots(job["setup"])
     out = []
     for sch in job["schedules"]:
+        if job.get("fresh_setup"):
+            slots = setup_slots(job["setup"])        # new shared objects: every schedule meets them for the first time
         install()
         results, errors, trace, unused, infeasible = run_threads(job["threads"], slots, sch)
         out.append(dict(schedule=sch, results=results, errors=errors, trace=trace, unused=unused, infeasible=infeasible,
@@ -288,10 +310,50 @@ def mode_stress(job):
                 ops_per_thread=[len(o) for o in threads_ops])
 
 
+def mode_firstuse(job):
+    """threads released together by a barrier read with ONE parsed reader schema that none of them has used before
+    (a new parsed object every round), each on its own stream"""
+    import fastavro, io
+    w = fastavro.parse_schema(job["writer_schema"])
+    n = len(job["payloads"])
+
+    def read(i, r):
+        return W.outcome(lambda: fastavro.schemaless_reader(io.BytesIO(job["payloads"][i]), w, r))
+
+    ref = fastavro.parse_schema(pickle.loads(pickle.dumps(job["reader_schema"])))
+    expected = [read(i, ref) for i in range(n)]
+    mism, rounds = [], 0
+    old = sys.getswitchinterval()
+    sys.setswitchinterval(1e-6)
+    stop = time.time() + job["seconds"]
+    try:
+        while time.time() < stop and not mism:
+            rounds += 1
+            r = fastavro.parse_schema(pickle.loads(pickle.dumps(job["reader_schema"])))
+            res = [None] * n
+            barrier = threading.Barrier(n)
+
+            def body(i):
+                barrier.wait()
+                res[i] = read(i, r)
+            ths = [threading.Thread(target=body, args=(i,), daemon=True) for i in range(n)]
+            for t in ths:
+                t.start()
+            for t in ths:
+                t.join(30)
+            for i in range(n):
+                if res[i] != expected[i]:
+                    mism.append(dict(round=rounds, thread=i, expected=expected[i], got=res[i]))
+    finally:
+        sys.setswitchinterval(old)
+    return dict(rounds=rounds, mismatches=mism[:5], n_mismatches=len(mism), sequential_ok=all(e["st"] == "ok" for e in expected))
+
+
 def main():
     with open(sys.argv[1], "rb") as fh:
         job = pickle.load(fh)
-    r = dict(footprint=mode_footprint, count=mode_count, forced=mode_forced, stress=mode_stress)[job["mode"]](job)
+    r = dict(footprint=mode_footprint, count=mode_count, forced=mode_forced, stress=mode_stress,
+             firstuse=mode_firstuse)[job["mode"]](job)
     with open(sys.argv[2], "w") as fh:
         json.dump(r, fh)
 
